@@ -32,6 +32,7 @@ func c17(c *Ctx) {
 	c17R3(c, "R3")
 	c17R4(c, "R4")
 	c17R5(c, "R5")
+	c17R6(c, "R6")
 }
 
 func loopSelect(c *Ctx, fn *ssa.Function) *ssa.Select {
@@ -551,4 +552,49 @@ func c17R5(c *Ctx, rule string) {
 		}
 	}
 	c.WhoMay(rule, "close(r.shutdownCh)", closers, map[string]string{"(*Raft).Shutdown": "the only closer"})
+}
+
+
+// c17R6: a user Restore answers EVERY in-flight future before it goes on: the
+// cancel loop takes the front element, answers it with ErrAbortedByRestore and
+// removes it, and is left only when Front() is nil. (An element that stays in
+// the list is later dropped by the commit arm without an answer.)
+func c17R6(c *Ctx, rule string) {
+	fn := c.Fn(rule, "(*Raft).restoreUserSnapshot")
+	if fn == nil {
+		return
+	}
+	front := "recv.leaderState.inflight.Front()"
+	var loopIf *ssa.If
+	engine.EachInstr(fn, func(in ssa.Instruction) {
+		if ifi, ok := in.(*ssa.If); ok {
+			if s, ok := c.P.CondOf(ifi.Cond).RelOn(front, "nil"); ok && (s == engine.EQ || s == engine.LT|engine.GT) {
+				loopIf = ifi
+			}
+		}
+	})
+	if loopIf == nil {
+		c.Bad(rule, "restoreUserSnapshot:cancel-loop", c.P.Pos(fn.Pos()), "a loop that re-reads inflight.Front() and stops when it is nil", "not found")
+		return
+	}
+	cd := c.P.CondOf(loopIf.Cond)
+	bodyIdx := 1
+	if s, _ := cd.RelOn(front, "nil"); s != engine.EQ {
+		bodyIdx = 0
+	}
+	body := loopIf.Block().Succs[bodyIdx]
+	rb := c.Run(&engine.Automaton{Fn: fn, StartBlock: body, StopAt: func(in ssa.Instruction) bool { return in == ssa.Instruction(loopIf) }, Tracks: []engine.Track{
+		engine.Event("answered", func(in ssa.Instruction) bool {
+			cc := engine.CallCommonOf(in)
+			return cc != nil && c.P.CalleeName(cc) == "(*deferError).respond" && strings.HasPrefix(c.P.D(engine.RecvValue(in)), front+".Value.(*logFuture)")
+		}),
+		engine.Event("removed", func(in ssa.Instruction) bool {
+			cc := engine.CallCommonOf(in)
+			return cc != nil && c.P.CalleeName(cc) == "(*container/list.List).Remove" && c.P.Arg(in, 0) == front
+		}),
+	}})
+	loops := engine.Reaches(body, loopIf.Block())
+	c.RequireAt(rb, rule, "restoreUserSnapshot:cancel-loop-answers-every-inflight", loopIf, "each iteration answers the front in-flight future and removes exactly that element, then re-reads Front(); the loop ends only on an empty list", func(v engine.View) bool {
+		return loops && v.Seen("answered") && v.Seen("removed")
+	})
 }
